@@ -192,13 +192,16 @@ func (db *DB) rawset(entry types.Entry) {
 	db.memtable.set(entry)
 
 	if db.memtable.size() >= db.config.MemtableByteThreshold {
+		// readers walk memtable and immutables under db.mu: rotate under the same lock and make
+		// the frozen memtable reachable before the flusher can see (and later remove) it
+		db.mu.Lock()
 		db.memtable.freeze()
 		imt := db.memtable
+		db.immutables.PushBack(imt)
+		db.memtable = db.memtable.reset()
+		db.mu.Unlock()
 
 		db.flushC <- imt
-		db.immutables.PushBack(imt)
-
-		db.memtable = db.memtable.reset()
 	}
 }
 
@@ -223,8 +226,14 @@ LOOP:
 			db.flushImmutable(imt)
 			db.manager.checkAndCompact()
 
+			// remove the memtable that was flushed (the oldest), not the newest one
 			db.mu.Lock()
-			db.immutables.Remove(db.immutables.Back())
+			for e := db.immutables.Front(); e != nil; e = e.Next() {
+				if e.Value.(*memtable) == imt {
+					db.immutables.Remove(e)
+					break
+				}
+			}
 			db.mu.Unlock()
 
 			if closed && len(db.flushC) == 0 {
